@@ -11,7 +11,8 @@ from vlib.runner import RAISED, Outcome, Part
 ID = "C09"
 RULE = (
     "Hypothesis-generated (aggregator, J, c1, c2, a, b): c entries 10^U(-3,3), a, b in (0.1, 10), J Gaussian / "
-    "conflicting / prescribed-SVD (full row rank, cond <= 30, for ConFIG and UPGrad), 1<=m<=6, 1<=n<=9. Oracle "
+    "conflicting / prescribed-SVD (full row rank, cond <= 30, for ConFIG and UPGrad), global scale 10^{0,+-2,+-3}, "
+    "1<=m<=6, 1<=n<=9. Oracle "
     "(metamorphic): |A(diag(a c1 + b c2) J) - a A(diag(c1) J) - b A(diag(c2) J)| <= K eps sum of scales for Mean, "
     "Sum, Constant(drawn weights), ConFIG(pref), PCGrad (scripted schedule, branch margins above threshold) and "
     "Random (equal seeds). UPGrad(pref): for every rung of the ladder reg_eps in {1e-2,1e-4,...,1e-12} (float64; "
@@ -49,6 +50,7 @@ def _case(draw):
     else:
         fam = draw(st.sampled_from(["gauss", "conflict", "gauss", "grid"]))
         J = rng.integers(-4, 5, size=(m, n)) / 2.0 if fam == "grid" else build(fam, m, n, rng, {"eps": 1e-2, "delta": 1e-2})
+    J = J * 10.0 ** draw(st.sampled_from([0, 0, -3, -2, 2, 3]))
     spec = {"name": name}
     if name in ("ConFIG", "UPGrad") and draw(st.booleans()):
         spec["pref"] = (10.0 ** rng.uniform(-1, 1, size=m)).tolist()
